@@ -118,6 +118,10 @@ def run_case(kind, p):
     c = pattern.get_crop_size()
     shape = tuple(p["shape"])
     msgs = []
+    for s_ in p.get("prior_shapes", []):
+        # call history: the pattern object has served frames of other shapes before (the relations are about what is computed
+        # for THIS frame, whatever the object was asked earlier)
+        pattern.get_template(tuple(s_))
     if p["frame_kind"] == "int":
         frame = rng.poisson(30, shape).astype(np.float32)
     else:
@@ -130,6 +134,8 @@ def run_case(kind, p):
     fbufs = {}
 
     def run_full(fr, pat_, pk, **kw):
+        for s_ in p.get("prior_shapes", []):     # ... also right before each full-frame call (the crop-based calls in between ask
+            pat_.get_template(tuple(s_))         # for templates of the window shape)
         return impl.run_full(fr, pat_, pk, frame_buf=fbufs.setdefault(fr.shape, np.zeros(fr.shape, np.float32)), **kw)
     # --- translation, crop based: embed in a larger canvas so that windows stay inside -------------
     big = np.zeros((shape[0] + 12, shape[1] + 12), np.float32) + float(frame.min())
@@ -362,6 +368,11 @@ def search(ctx, boost=1, focus=()):
             peaks = np.stack([rng.integers(c, shape[0] - c + 1, npk), rng.integers(c, shape[1] - c + 1, npk)], axis=1)
             peaks[0] = (shape[0] - c - int(rng.integers(0, 5)), shape[1] - c - int(rng.integers(0, 5)))
             p["peaks"] = peaks.tolist()
+        if k % 3 == 1:
+            # an earlier frame whose half-spectrum has the same shape (width 2n <-> 2n + 1), or its transpose, or a larger one
+            tw_ = shape[1] + 1 if shape[1] % 2 == 0 else shape[1] - 1
+            p["prior_shapes"] = [[[shape[0], tw_]], [[shape[1], shape[0]], [shape[0], tw_]], [[shape[0] + 6, shape[1] + 5]]][(k // 3) % 3]
+            ctx.count("prior_shapes")
         msgs_ = run_case("relations", p)
         ctx.oracle_case("relations", p, msgs_, key=classify("relations", p, msgs_) if msgs_ else None,
                         nontrivial=(shape[0] != shape[1] or (p["t"][0] != 0 and p["t"][1] != 0)))
